@@ -483,6 +483,70 @@ pub fn big_commit_history(ps: u64, index: usize) -> Option<History> {
     Some(History { pagesize: ps, num_pages: 4, strict: false, populate: false, txs, origin: format!("big commit: {} values x {} B in one transaction, page size {}", n, len, ps) })
 }
 
+/// Directed family: deep trees.  Keys of about a fifth of a page give branch pages a fan-out of
+/// four, so a few hundred keys make a tree of five or six levels; ranges and patterns of keys are
+/// then deleted and re-inserted so that merges and root collapses cascade through several levels.
+pub fn deep_tree_history(ps: u64, index: usize) -> Option<History> {
+    if index >= 8 {
+        return None;
+    }
+    let n = if index < 6 { 420usize } else { 900 };
+    let klen = ps as usize / 5;
+    let key = |j: usize| K { pre: format!("d{:05}", j * 3).into_bytes(), fill: klen, post: vec![b'#'] };
+    let mid = |j: usize| K { pre: format!("d{:05}", j * 3 + 1).into_bytes(), fill: klen, post: vec![b'#'] };
+    let put = |k: K, tag: u64, len: usize| Op::Put { h: 0, k, v: V { tag, len }, how: How::Slice, vhow: How::Slice };
+    let get = || Op::TxGet { k: K::lit(b"deep"), how: How::Slice };
+    let mut txs = Vec::new();
+    let mut ops = vec![Op::TxCreate { k: K::lit(b"deep"), how: How::Slice }];
+    for j in 0..n {
+        ops.push(put(key(j), j as u64 + 1, 20 + j % 30));
+    }
+    // a few nested buckets among the keys
+    for j in [n / 7, n / 2, n - 3] {
+        ops.push(Op::Create { h: 0, k: mid(j), how: How::Slice });
+    }
+    txs.push(TxScript { ops, end: End::Commit, reopen: index % 2 == 1 });
+    let del_range = |a: usize, b: usize, step: usize| -> Vec<Op> {
+        let mut ops = vec![get()];
+        for j in (a..b).step_by(step) {
+            ops.push(Op::Delete { h: 0, k: key(j) });
+        }
+        ops.push(Op::Scan { h: 0 });
+        ops
+    };
+    let plans: Vec<Vec<Op>> = match index % 6 {
+        0 => vec![del_range(0, n * 3 / 4, 1), del_range(n * 3 / 4, n - 2, 1)],
+        1 => vec![del_range(n / 4, n * 3 / 4, 1), del_range(0, n / 4, 1), del_range(n * 3 / 4, n, 1)],
+        2 => vec![del_range(0, n, 2), del_range(1, n / 2, 2), del_range(n / 2 + 1, n, 2)],
+        3 => vec![del_range(2, n - 1, 1)],
+        4 => vec![del_range(n / 2, n, 1), del_range(0, n / 2 - 1, 1)],
+        _ => vec![del_range(0, n, 3), del_range(1, n, 3), del_range(2, n, 3)],
+    };
+    let np = plans.len();
+    for (pi, mut ops) in plans.into_iter().enumerate() {
+        if pi == 1 {
+            // insertions between the survivors in the same transaction as the deletions
+            for j in (0..n).step_by(17) {
+                ops.push(put(mid(j + 1), 50_000 + j as u64, 40));
+            }
+        }
+        txs.push(TxScript { ops, end: End::Commit, reopen: pi + 1 == np && index % 3 == 0 });
+        // a rolled-back attempt to delete everything that is left
+        if pi == 0 {
+            txs.push(TxScript { ops: vec![Op::TxDelete { k: K::lit(b"deep"), how: How::Slice }], end: End::Rollback, reopen: false });
+        }
+    }
+    // refill a part, then delete the whole bucket
+    let mut ops = vec![get()];
+    for j in (0..n).step_by(2) {
+        ops.push(put(key(j), 90_000 + j as u64, 25));
+    }
+    ops.push(Op::Buckets { h: 0 });
+    txs.push(TxScript { ops, end: End::Commit, reopen: false });
+    txs.push(TxScript { ops: vec![Op::TxDelete { k: K::lit(b"deep"), how: How::Slice }, Op::TxCreate { k: K::lit(b"after"), how: How::Slice }, put(K::lit(b"x"), 7, 10)], end: End::Commit, reopen: true });
+    Some(History { pagesize: ps, num_pages: 8, strict: false, populate: false, txs, origin: format!("deep tree: {} keys of {} B, deletion plan {}", n, klen + 7, index % 6) })
+}
+
 // ---------------------------------------------------------------------------
 // Directed family: several bucket deletions at different nesting levels in one
 // transaction (child then ancestor, ancestor of a bucket modified or created in
